@@ -1833,10 +1833,15 @@ class KernelSim(WorldBase):
                 self.fault("rejected:addTraces-arity")
             else:
                 self.probe("wrong_arity_accepted")
+        asgiven = [[list(r) for r in t] for t in ts]
         try:
             isect["obj"].addTraces(*ts)
         except Exception as e:
             isect["err"] = f"{type(e).__name__}: {str(e)[:60]}"
+        if self.prop == "C19" and not isect["err"] and [[list(r) for r in t] for t in ts] != asgiven:
+            self.V("C19", "C19.batching", "session",
+                   f"addTraces changed the batch it was given: {asgiven[0][:3]} became {[list(r) for r in ts[0]][:3]} "
+                   f"(a second model fed the same batch would count something else)")
         if isect.get("rival") and not isect.get("rivaled") and isect.get("obj") is not None \
                 and any(len(t) > 0 for t in ts):
             isect["rivaled"] = True           # (only once the first model has seen its first non-empty batch)
